@@ -372,6 +372,18 @@ fn run_case(plan: &Plan, h: &History, case: usize, origin: &str, sh: &Shared) {
                         if problem.is_none() {
                             problem = c14_ids(req, decoded, &raw, &facts);
                         }
+                        if problem.is_none() {
+                            // payload bytes are determined by the symbolic history, so the twin's
+                            // bytes are what the library returns for the request as sent
+                            match (twin, decoded) {
+                                (Resp::Found { data: a, .. }, Resp::Found { data: b, .. }) | (Resp::Snap { data: a, .. }, Resp::Snap { data: b, .. }) => {
+                                    if a != b {
+                                        problem = Some(format!("body has {} bytes but the library on the twin storage returns {} bytes for the same request (first difference at {:?})", b.len(), a.len(), crate::ops::first_diff(b, a)));
+                                    }
+                                }
+                                _ => {}
+                            }
+                        }
                         if let Some(m) = problem {
                             let msg = format!("op #{t} {} on {}: {m}; HTTP response was: {}; library outcome on the twin storage: {}", req.name(), hk.name(), raw.describe(), twin.short());
                             sh.found.lock().unwrap().push(mk_found(plan, msg, h, case, origin, json!({"subject": hk.name(), "op_index": t, "twin_outcome": twin.short()})));
